@@ -722,6 +722,10 @@ prop(dict(
 # ---------------------------------------------------------------- C10 / C15
 def _nal(t, nri, n, rng):
     body = [rng.randint(1, 255) for _ in range(n - 1)]
+    # isolated zero bytes are legal inside a NAL unit (no 00 00 0x, no trailing zero)
+    for i in range(len(body) - 1):
+        if rng.random() < 0.08 and (i == 0 or body[i - 1] != 0):
+            body[i] = 0
     return [nri << 5 | t] + body
 
 
@@ -751,7 +755,7 @@ def rand_c10(seed, tier, cases=None):
                     continue
                 t = rng.choice([1, 5, 6, 9, 12, 23, 1, 5])
                 units.append(_nal(t, rng.randint(0, 3), rng.choice([2, 3, mtu - 1, mtu, mtu + 1, 2 * mtu, rng.randint(2, 3 * mtu + 2)]), rng)); scs.append(rng.choice([3, 4]))
-            calls.append(dict(units=[[max(1, x) if i else x for i, x in enumerate(u)] for u in units], scs=scs))
+            calls.append(dict(units=units, scs=scs))
         if pending:
             calls.append(dict(units=[pending.pop(), _nal(5, 2, 6, rng)], scs=[3, 3]))
         out.append(dict(fam="C10", kind="payloader", mtu=mtu, stapa=stap, calls=calls, **{"class": "rand_payloader"}))
